@@ -1,12 +1,15 @@
 ---------------------------- MODULE Trace_Pacer ----------------------------
-(* (T) validates traces recorded from pacing.Interceptor, gcc.LeakyBucketPacer and gcc.NoOpPacer against Pacer (C17).
+(* (T) validates traces recorded from pacing.Interceptor, gcc.LeakyBucketPacer and gcc.NoOpPacer (kinds "pacing", "leaky",
+   "noop") and from the two gcc pacers as gcc.SendSideBWE wires them ("bwe-leaky", "bwe-noop": AddStream(info, writer)
+   for streams with and without the transport-cc extension) against Pacer (C17).
    Every event carries t = milliseconds (floor) since the harness started the script, taken under the log's mutex, so
    the log order is consistent with real time.
      reset {kind, rate, ival}             rate in bits/ms, ival in ms
      addstream {s}                        BindLocalStream / AddStream with the harness writer of stream s
      call {p, g, s, bits, pkt}            goroutine g calls Write with packet p (s: the stream whose writer must get it)
      ret {p, ok}                          that Write returned (ok: no error = accepted)
-     rel {s, bits, pkt}                   a packet reached the next writer of stream s
+     rel {s, bits, pkt, fail}             a packet reached the next writer of stream s (fail: the harness writer returned
+                                          an injected error - the attempt is the packet's one delivery all the same)
      setrate_call {rate} / setrate_ret
      quiesce {pending, waited}            the harness waited >= 3 x the time the token model needs (+ slack, confirmed by
                                           a second, longer wait) for every accepted packet; pending = accepted - released
